@@ -473,7 +473,8 @@ func (p *sshFxpStatResponse) MarshalBinary() ([]byte, error) {
 var emptyFileStat = []any{uint32(0)}
 
 func (p *sshFxpOpenPacket) readonly() bool {
-	return !p.hasPflags(sshFxfWrite)
+	// Creating or truncating a file modifies the file system even without write access to its data.
+	return p.Pflags&(sshFxfWrite|sshFxfAppend|sshFxfCreat|sshFxfTrunc) == 0
 }
 
 func (p *sshFxpOpenPacket) hasPflags(flags ...uint32) bool {
